@@ -5,6 +5,7 @@ CONSTANTS
   Bug_CloseAllClosesLast = FALSE
   Bug_NoSwallow = FALSE
   Bug_NoResetSourcePosition = FALSE
+  PairLast = FALSE
 INVARIANT Done
 POSTCONDITION Accepted
 CHECK_DEADLOCK FALSE
